@@ -95,10 +95,10 @@ class Hub:
 
     def pump(self):
         while not self.stop:
-            try:
-                src, can_id, data, delay = self.q.get(timeout=0.05)
-            except queue.Empty:
-                continue
+            item = self.q.get()
+            if item is None:
+                return
+            src, can_id, data, delay = item
             if delay:
                 time.sleep(delay)
             for n in self.nets:
@@ -108,6 +108,7 @@ class Hub:
     def close(self):
         self.stop = True
         if self.thread:
+            self.q.put(None)
             self.thread.join(timeout=1)
 
 
@@ -452,7 +453,7 @@ def gen_ops(tier, rng):
             if tier == "quick":
                 delivery = "inline-idx" if r < 0.8 else rng.choice(DELIVERIES[1:3]) if r < 0.97 else rng.choice(DELIVERIES[3:])
             else:
-                delivery = rng.choice(DELIVERIES + (["vcan-idx"] if r < 0.02 else []))
+                delivery = rng.choice(DELIVERIES + (["vcan-idx"] if r < 0.002 else []))
             if kind == "v" and delivery.endswith("dot"):
                 delivery = delivery.replace("dot", "name")
             yield f"typed {c02.od_token(entries)} {idx} {sub} {t} {c02.val_token(val)} {delivery}"
